@@ -223,6 +223,11 @@ func (its *WiredDatatype) ApplyPushPullPack(ppp *model.PushPullPack) {
 		if err != nil {
 			errs = errs.Append(err)
 		}
+		if ppp.GetPushPullPackOption().HasSubscribeBit() {
+			// the rollback point has to carry the identity the datatype has from now on (DUID, operation id):
+			// the one taken while the reply was checked still holds the provisional ones.
+			_ = its.ResetTransaction()
+		}
 		opList, err = its.ReceiveRemoteModelOperations(ppp.Operations, true)
 		if err != nil {
 			errs = errs.Append(err)
